@@ -117,25 +117,33 @@ def rules(rep, m):
     P = "%s->guard." % cvp
     preds = [c for c in walk(cs.body) if c["kind"] == "CallExpr" and callee_ref(c) is None
              and cx.canon(kids(c)[0]).lstrip("*").endswith(".item[1]")]
-    scans = [x for x in walk(cs.body) if x["kind"] == "ForStmt" and preds and any(y is preds[0] for y in walk(x))]
+    from ..vals import is_assert_stmt as _is_assert
+    scans = [x for x in walk(cs.body) if x["kind"] in ("ForStmt", "WhileStmt", "DoStmt") and not _is_assert(x) and
+             not (x["kind"] == "DoStmt" and int_value(kids(x)[1]) == 0) and preds and any(y is preds[0] for y in walk(x))]
+    # the innermost loop that contains the predicate call
+    scans = [x for x in scans if not any(y is not x and any(z is y for z in walk(x)) for y in scans)]
     if len(preds) != 1 or len(scans) != 1:
         rep.finding(r3, cs.name, "shape", "expected one scan loop evaluating the stored predicate of each entry; found %d "
                     "predicate call(s) in %d loop(s)" % (len(preds), len(scans)), where=m.rel(cs.where))
         r3.fail()
     else:
         scan, call = scans[0], preds[0]
-        sch = kids(scan)
-        loopvar, start = None, None
-        for x in walk(sch[0]):
-            if x["kind"] == "VarDecl":
-                loopvar = x["name"]
-                start = int_value(kids(x)[0]) if kids(x) else None
-        bound = cx.canon(sch[2])
-        okrange = loopvar is not None and start == 1 and bound == "(%s <= %sheap_count)" % (loopvar, P)
-        r3.instance("scan loop: %s from %s while %s" % (loopvar, start, bound))
+        from . import siftrules as _sr
+        from ..engines.induct import Poly as _Poly
+        loopvar, start, bound = None, None, None
+        try:
+            first_, last_, step_ = _sr.scan_range_general(m, cs, scan, heap)
+            loopvar = _sr.scan_range_general.last_cursor
+            lo_, hi_ = (first_, last_) if step_ == 1 else (last_, first_)
+            okrange = lo_ == _Poly.const(1) and hi_ == _Poly.sym("N")
+            start, bound = first_.show(), last_.show()
+        except AnalysisBroken as e_:
+            okrange = False
+            bound = str(e_)
+        r3.instance("scan loop: %s from %s to %s" % (loopvar, start, bound))
         if not okrange:
             rep.finding(r3, cs.name, "scan:range", "the scan does not cover heap[1..heap_count] of the condition's own "
-                        "queue (from %s while %s)" % (start, bound), where=m.rel(loc(scan)))
+                        "queue (from %s to %s)" % (start, bound), where=m.rel(loc(scan)))
             r3.fail()
         else:
             r3.ok()
@@ -151,6 +159,10 @@ def rules(rep, m):
         else:
             r3.ok()
         ifs = [x for x in walk(scan) if x["kind"] == "IfStmt" and any(y is call for y in walk(kids(x)[0]))]
+        if not ifs:
+            # the outcome may be kept in a local first
+            ctext = cx.canon(call)
+            ifs = [x for x in walk(scan) if x["kind"] == "IfStmt" and cx.canon(kids(x)[0]).lstrip("!") in (ctext, "(" + ctext + ")")]
         br = None
         if len(ifs) == 1:
             c0 = cx.canon(kids(ifs[0])[0])
